@@ -819,14 +819,18 @@ package collection
 // PLUS the effect of the eviction callback on the owner's data map (keyLru calls onEvict = Cache.onEvict once per key that
 // leaves it — proved above — and Cache.onEvict deletes exactly that key — proved below; the composition of the two is this
 // trusted interface contract). lruLim[l] == 0: the empty lru, which does nothing.
+// lruMru[l]: the most recently used key of l (keyLru.add proves that its key gets the largest position stamp, and
+// removeOldest that it evicts the smallest one: so the key evicted is the one whose last add lies furthest back)
+//@ ghost var lruMru map[any]string
 //@ extern func (l lru) add
+//@   ensures implies(lruLim[l] > 0, lruMru[l] == key)
 //@   ensures implies(lruLim[l] <= 0, lruHas[l] == old(lruHas[l]) && lruN[l] == old(lruN[l]))
 //@   ensures implies(lruLim[l] > 0, lruHas[l][key] && lruN[l] <= lruLim[l] && forall(s.(string), implies(s != key && lruHas[l][s], old(lruHas[l][s]))))
 //@   ensures implies(lruLim[l] > 0 && old(lruHas[l][key]), lruHas[l] == old(lruHas[l]) && lruN[l] == old(lruN[l]))
 //@   ensures forall(s.(string), inDom(lruOwner[l].data, s) == (old(inDom(lruOwner[l].data, s)) && !(lruLim[l] > 0 && old(lruHas[l][s]) && !lruHas[l][s])))
 //@   ensures valof(lruOwner[l].data) == old(valof(lruOwner[l].data))
 //@   ensures len(lruOwner[l].data) - lruN[l] == old(len(lruOwner[l].data)) - (old(lruN[l]) + ite(lruLim[l] > 0 && !old(lruHas[l][key]), 1, 0))
-//@   modifies lruHas[l], lruN[l], mapof(lruOwner[l].data)
+//@   modifies lruHas[l], lruN[l], lruMru[l], mapof(lruOwner[l].data)
 //@ extern func (l lru) remove
 //@   ensures implies(lruLim[l] <= 0, lruHas[l] == old(lruHas[l]) && lruN[l] == old(lruN[l]))
 //@   ensures implies(lruLim[l] > 0, !lruHas[l][key] && lruN[l] == old(lruN[l]) - ite(old(lruHas[l][key]), 1, 0) && forall(s.(string), implies(s != key, lruHas[l][s] == old(lruHas[l][s]))))
@@ -883,14 +887,16 @@ package collection
 //@   ensures  implies(lruLim[c.lruCache] <= 0, forall(s.(string), implies(s != key, inDom(c.data, s) == old(inDom(c.data, s)) && implies(inDom(c.data, s), c.data[s] == old(c.data[s])))))
 //@   ensures  forall(s.(string), implies(s != key && inDom(c.data, s), old(inDom(c.data, s)) && c.data[s] == old(c.data[s])))
 //@   ensures  twSets + twMoves == old(twSets + twMoves) + 1
-//@   modifies mapof(c.data), lruHas[c.lruCache], lruN[c.lruCache], twSets, twMoves
+//@   ensures  implies(lruLim[c.lruCache] > 0, lruMru[c.lruCache] == key)
+//@   modifies mapof(c.data), lruHas[c.lruCache], lruN[c.lruCache], lruMru[c.lruCache], twSets, twMoves
 
 //@ func (c *Cache) Set
 //@   property C16
 //@   float real
 //@   requires c != nil && c.timingWheel != nil && c.expire >= 0 && mathx.UnstableOK(c.unstableExpiry)
 //@   call SetWithExpire#0: assert arg_key == key && arg_value == value && arg_expire == c.expire
-//@   modifies mapof(c.data), lruHas[c.lruCache], lruN[c.lruCache], twSets, twMoves
+//@   ensures  implies(lruLim[c.lruCache] > 0, lruMru[c.lruCache] == key)
+//@   modifies mapof(c.data), lruHas[c.lruCache], lruN[c.lruCache], lruMru[c.lruCache], twSets, twMoves
 
 //@ func (c *Cache) doGet
 //@   property C16
@@ -899,7 +905,8 @@ package collection
 //@   requires c != nil
 //@   ensures  ok == old(inDom(c.data, key)) && implies(ok, value == old(c.data[key]))
 //@   ensures  forall(s.(string), inDom(c.data, s) == old(inDom(c.data, s)) && implies(inDom(c.data, s), c.data[s] == old(c.data[s])))
-//@   modifies mapof(c.data), lruHas[c.lruCache], lruN[c.lruCache]
+//@   ensures  implies(ok && lruLim[c.lruCache] > 0, lruMru[c.lruCache] == key) && implies(!ok, lruMru[c.lruCache] == old(lruMru[c.lruCache]))
+//@   modifies mapof(c.data), lruHas[c.lruCache], lruN[c.lruCache], lruMru[c.lruCache]
 
 //@ func (c *Cache) onEvict
 //@   property C16
@@ -931,7 +938,8 @@ package collection
 //@   ghost at after doGet#0: gv = ret0
 //@   ghost at after doGet#0: gok = ret1
 //@   ensures  value == gv && ok == gok
-//@   modifies mapof(c.data), lruHas[c.lruCache], lruN[c.lruCache], cacheStat.hit, cacheStat.miss
+//@   ensures  implies(ok && lruLim[c.lruCache] > 0, lruMru[c.lruCache] == key)
+//@   modifies mapof(c.data), lruHas[c.lruCache], lruN[c.lruCache], lruMru[c.lruCache], cacheStat.hit, cacheStat.miss
 
 // WithLimit: a positive limit installs a fresh key lru of that limit whose eviction callback is this cache's onEvict
 //@ func WithLimit closure 0
